@@ -792,7 +792,7 @@ pub fn c20_sweep(cx: &SweepCtx, quick: bool) {
     for len in 0..=INLINE {
         texts_.push(ascii(len).to_string());
     }
-    let lens: Vec<usize> = if quick { vec![17, 18, 31, 32, 33, 255, 256, 257, 65535, 65536, 65537] } else { (17..=600).chain([65535, 65536, 65537, (1 << 20) - 1, 1 << 20, (1 << 24) - 1, 1 << 24, (1 << 24) + 1]).collect() };
+    let lens: Vec<usize> = if std::env::var("LSVERIF_MIRI").is_ok() { vec![INLINE + 1, INLINE + 2, 31, 32, 33, 255, 256, 257] } else if quick { vec![17, 18, 31, 32, 33, 255, 256, 257, 65535, 65536, 65537] } else { (17..=600).chain([65535, 65536, 65537, (1 << 20) - 1, 1 << 20, (1 << 24) - 1, 1 << 24, (1 << 24) + 1]).collect() };
     for len in lens {
         texts_.push(long_text(len));
     }
